@@ -12,6 +12,7 @@ from ..report import AnalysisError
 from ..srcmodel import unparse, norm, walk_no_nested, calls_in, fold_const
 from .common import cfg_of, facts_at, is_method_call, get_kw, fde_guard, find_stmt_node
 from . import containers as ct
+from . import unitrules
 from . import tr
 from ..tracer import Tracer, callback_params
 from .tagtable import check_flag_tags
@@ -27,6 +28,7 @@ DECIDED = [
     'R5: plain containers evaluate every child exactly once, in child-map order, through the context (single comprehension over named_children without filter/sort/slice).',
     'R7: the {{...}} -> :hex rewriting shifts both bounds of every block by the accumulated offset, splices data[:beg] + repl + data[end:] and accumulates len(repl) - (end - beg); encoder / decoder are an inverse pair.',
     'R6: no key class bypasses the child map: ConfigDict item set/delete keep both stores paired (C17.R1).',
+    'R8: ConfigNone (payload of null scalars) evaluated: false, equal to None, printed as None, get() is None.',
 ]
 UNDECIDED = ['tokenisation of the {{...}} block end (_get_metadata_end);', 'equality of scalar values; non-core YAML types; YAML merge keys (<<) under tagged mappings.']
 TRUSTED = ['shape of yaml/constructor.py BaseConstructor.construct_object of the installed PyYAML (re-verified structurally on each run)']
@@ -518,11 +520,13 @@ def check(repo, run, tier):
     g(plain_container_eval, repo, run, 'C01.R5')
     g(ct.pairing, repo, run, 'C01.R6', classes=('ConfigDict',), ops=['__setitem__', '__delitem__', '__init__', 'update'])
     g(ct.pairing, repo, run, 'C01.R6', classes=('ConfigList',), ops=['__init__', 'extend', 'append'])
+    g(unitrules.none_scalar_table, repo, run, 'C01.R8')
     g.done()
 
 
 def mutants(repo):
     return [
+        Mutant('null-is-true', lambda r: in_func(r, 'ConfigNone.__bool__', "return False", "return True"), ['C01.R8']),
         Mutant('F19-reverted-full-list-refill', lambda r: in_func(r, 'AwesomeyamlLoader.construct_object', "lambda v: aynode.extend(v[len(aynode):])", "aynode.extend"), ['C01.R1d']),
         Mutant('F1-and-F19-reverted', lambda r: {'awesomeyaml/yaml.py': in_func(r, 'AwesomeyamlLoader.construct_object', "lambda v: aynode.extend(v[len(aynode):])", "aynode.extend")['awesomeyaml/yaml.py'].replace("if not deep and not self.deep_construct and value is not aynode:", "if not deep and value is not aynode:")}, ['C01.R1']),
         Mutant('neutral-F1-guard-redundant-with-tail-filler', lambda r: in_func(r, 'AwesomeyamlLoader.construct_object', "if not deep and not self.deep_construct and value is not aynode:", "if not deep and value is not aynode:"), neutral=True),
